@@ -55,13 +55,18 @@ def qRec (ι : AttrInterp) (p : Rib.Prefix) (r : Rib.Rec) : RibQuery.Rec :=
 def qEntry (ι : AttrInterp) (s : Rib.Store) (e : Rib.Key × Rib.Val) : RibQuery.Rec :=
   qRec ι e.1.1 (Rib.rewrite (s.wd e.1.1.fam) (Rib.toRec e))
 
+/-- The record-less prefix slots of the shared store (`known` without the prefixes that hold a
+    record): what `mark_mui_as_withdrawn_for_prefix` on an unknown prefix leaves behind. -/
+def emptySlots (s : Rib.Store) : List RibQuery.Prefix :=
+  (s.known.filter fun p => !(s.recs.any fun e => decide (e.1.1 = p))).map qPfx
+
 /-- **Abstraction map** shared store → query-side store. -/
 def storeToQ (ι : AttrInterp) (s : Rib.Store) : RibQuery.Store :=
-  { recs := s.recs.map (qEntry ι s), wd := [] }
+  { recs := s.recs.map (qEntry ι s), wd := [], empty := emptySlots s }
 
 /-- The literal alternative: raw statuses plus one store-wide marker set (the v4 tree's). -/
 def storeToQraw (ι : AttrInterp) (s : Rib.Store) : RibQuery.Store :=
-  { recs := s.recs.map fun e => qRec ι e.1.1 (Rib.toRec e), wd := s.wd4 }
+  { recs := s.recs.map fun e => qRec ι e.1.1 (Rib.toRec e), wd := s.wd4, empty := emptySlots s }
 
 /-- **Abstraction map** shared RIB → query-side RIB. -/
 def ribToQ (ι : AttrInterp) (r : Rib.Rib) : RibQuery.Rib :=
